@@ -1,14 +1,24 @@
 #!/bin/bash
-# usage: confirm_seed.sh <seed-dir containing patch.diff, meta.json, demo/> <name>
-# Confirms in a scratch worktree (/tmp/confirm): patch applies, workspace builds, the repository's
-# suite passes with it, and records the outcome in <seed-dir>/confirm.log. Demo is run by hand/with demo_cmd.
-SEED="$1"; NAME="$2"
+# usage: confirm_seed.sh <seed-dir>   (contains patch.diff, meta.json with demo_cmd, demo files)
+# In a scratch worktree of /repo HEAD (/tmp/confirm): apply patch -> suite must pass -> demo must FAIL;
+# revert patch -> demo must PASS. Writes <seed-dir>/confirm.log. demo_cmd may refer to SEED_OUT/ (symlinked).
+SEED="$(cd "$1" && pwd)"
 WT=/tmp/confirm
 if [ ! -d $WT ]; then git -C /repo worktree add -q --detach $WT HEAD; fi
-cd $WT && git checkout -q --detach $(git -C /repo rev-parse HEAD) && git checkout -- . && git clean -fdq -e target
+cd $WT && git checkout -q --detach $(git -C /repo rev-parse HEAD) && git checkout -- . && git clean -fdq -e target -e SEED_OUT
+rm -f SEED_OUT; ln -s "$SEED" SEED_OUT
 LOG="$SEED/confirm.log"; : > "$LOG"
+echo "repo HEAD $(git rev-parse --short HEAD)" >> "$LOG"
 if ! git apply "$SEED/patch.diff" 2>>"$LOG"; then echo "APPLY_FAILED" >> "$LOG"; exit 1; fi
 echo "== suite with change" >> "$LOG"
-cargo nextest run --workspace --no-fail-fast --offline --test-threads 8 --tool-config-file pb:/w/lib/nextest.toml --profile pb 2>&1 | grep -E "Summary|FAIL|error(\[|:)" | head -20 >> "$LOG"
-git checkout -- . 
+cargo nextest run --workspace --no-fail-fast --offline --test-threads 8 --tool-config-file pb:/w/lib/nextest.toml --profile pb 2>&1 | grep -E "Summary|FAIL |error(\[|:)" | head -20 >> "$LOG"
+DEMO=$(python3 -c "import json,sys; print(json.load(open('$SEED/meta.json'))['demo_cmd'])")
+DEMO=$(echo "$DEMO" | sed 's/ -j 6//g; s/--build-jobs 6//g')
+echo "== demo with change: $DEMO" >> "$LOG"
+( eval "$DEMO" ) 2>&1 | grep -E "test result|Summary|panicked|FAILED|passed" | head -12 >> "$LOG"
+git checkout -- . ; git clean -fdq -e target -e SEED_OUT
+echo "== demo without change" >> "$LOG"
+( eval "$DEMO" ) 2>&1 | grep -E "test result|Summary|panicked|FAILED|passed" | head -12 >> "$LOG"
+git checkout -- . ; git clean -fdq -e target -e SEED_OUT
 echo "done" >> "$LOG"
+cat "$LOG"
